@@ -277,6 +277,9 @@ func genProgram(r *vh.Rand) (string, bool) {
 	g := &gen{r: r}
 	var b strings.Builder
 	class := r.Chance(20)
+	if r.Chance(8) {
+		b.WriteString("#!/usr/bin/env xgo\n")
+	}
 	if !class && r.Chance(40) {
 		b.WriteString("package main\n\n")
 	}
